@@ -1,6 +1,7 @@
 package core
 
 import (
+	"github.com/jsightapi/jsight-api-go-library/catalog"
 	"github.com/jsightapi/jsight-api-go-library/internal/verifrt"
 )
 
@@ -112,4 +113,84 @@ func VerifH_DescriptionParens() {
 		verifrt.Assert("C15.desc.parens-same", string(bare) == string(par))
 	}
 	verifrt.Reach("C15.desc.parens", true)
+}
+
+// VerifH_DescriptionDoc (C15 through the whole pipeline): a Description whose
+// body is N bytes over {a, blank, TAB, LF}, written bare or inside parentheses,
+// under INFO, a TAG, an HTTP method or a JSON-RPC method. A body without any
+// visible character is rejected in both spellings; any other body is accepted in
+// both and gives the same description, which is what description() computes for
+// the bare text.
+func VerifH_DescriptionDoc() {
+	n := verifrt.Choice("n", verifrt.Bound("N")+1)
+	x := verifrt.String("x", n)
+	blank := true
+	for i := 0; i < n; i++ {
+		c := x[i]
+		verifrt.Assume(c == 'a' || c == ' ' || c == '\t' || c == '\n')
+		if c == 'a' {
+			blank = false
+		}
+	}
+	var head string
+	host := verifrt.Choice("host", 4)
+	switch host {
+	case 0:
+		head = "JSIGHT 0.3\nINFO\nDescription"
+	case 1:
+		head = "JSIGHT 0.3\nTAG @t\nDescription"
+	case 2:
+		head = "JSIGHT 0.3\nGET /g\n200 any\nDescription"
+	default:
+		head = "JSIGHT 0.3\nURL /u\nProtocol json-rpc-2.0\nMethod m\nDescription"
+	}
+	get := func(c *JApiCore) string {
+		got := "<absent>"
+		switch host {
+		case 0:
+			if c.catalog.Info != nil && c.catalog.Info.Description != nil {
+				got = *c.catalog.Info.Description
+			}
+		case 1:
+			if t, ok := c.catalog.Tags.Get("@t"); ok && t.Description != nil {
+				got = *t.Description
+			}
+		default:
+			c.catalog.Interactions.EachSafe(func(_ catalog.InteractionID, v catalog.Interaction) {
+				switch in := v.(type) {
+				case *catalog.HTTPInteraction:
+					if in.Description != nil {
+						got = *in.Description
+					}
+				case *catalog.JsonRpcInteraction:
+					if in.Description != nil {
+						got = *in.Description
+					}
+				}
+			})
+		}
+		return got
+	}
+	bareDoc := head + "\n" + x + "\n"
+	parDoc := head + "\n(\n" + x + "\n)\n"
+	verifrt.Note("bare", bareDoc)
+	verifrt.Note("parenthesised", parDoc)
+	c0, je0 := verifRun(bareDoc)
+	c1, je1 := verifRun(parDoc)
+	if blank {
+		verifrt.Assert("C15.doc.blank-rejected-bare", je0 != nil)
+		verifrt.Assert("C15.doc.blank-rejected-parenthesised", je1 != nil)
+		verifrt.Reach("C15.doc.blank", true)
+		return
+	}
+	verifrt.Assert("C15.doc.accepted-bare", je0 == nil)
+	verifrt.Assert("C15.doc.accepted-parenthesised", je1 == nil)
+	if je0 != nil || je1 != nil {
+		return
+	}
+	d0, d1 := get(c0), get(c1)
+	verifrt.Assert("C15.doc.same-in-either-spelling", d0 == d1)
+	want, err := description([]byte(x))
+	verifrt.Assert("C15.doc.is-the-normalised-text", err == nil && d0 == string(want))
+	verifrt.Reach("C15.doc.text", true)
 }
